@@ -938,7 +938,7 @@ def add_queries(P, ch, feat, n=1):
 # ------------------------------------------------------------------------------------------------
 # recursion-heavy workloads (used where the property is about the fixpoint loop itself: C09, C23, C03, C22 ...)
 
-def gen_recursive(ch, max_nodes=9, max_edges=18, npatterns=(1, 3), allow_neg=True, flag=False, ring=False):
+def gen_recursive(ch, max_nodes=9, max_edges=18, npatterns=(1, 3), allow_neg=True, flag=False, ring=False, rich_filters=False):
     """random graph EDB + 1-3 recursive patterns (linear / non-linear transitive closure, bounded counters, mutual
     recursion, same-generation, reachability with a negated lower-stratum filter), each with small random variations.
     All strata need several iterations by construction."""
@@ -967,6 +967,12 @@ def gen_recursive(ch, max_nodes=9, max_edges=18, npatterns=(1, 3), allow_neg=Tru
     blocked.output = False
     P.add_rel(blocked)
     X, Y, Z, W, A, B = (Var(n, NUMBER) for n in ("x", "y", "z", "w", "a", "b"))
+    if rich_filters:
+        # a nullary input relation (present or empty) for negated nullary atoms
+        nl = Rel("e3", [], "edb")
+        nl.facts = [()] if ch.bool(0.4) else []
+        nl.output = False
+        P.add_rel(nl)
     n = ch.int(npatterns[0], npatterns[1])
     idx = 0
 
@@ -1000,6 +1006,12 @@ def gen_recursive(ch, max_nodes=9, max_edges=18, npatterns=(1, 3), allow_neg=Tru
                 body.append(Neg(Atom("e2", [Y])))
             if ch.bool(0.25):
                 body.append(Cmp("!=", X, Z, NUMBER))
+            if rich_filters and ch.bool(0.4):
+                # a comparison between a body-only variable and a head variable, in either order
+                a, b = ch.choice([(Y, X), (Y, Z), (X, Y), (Z, Y)])
+                body.append(Cmp(ch.choice(["!=", "<=", ">", "!="]), a, b, NUMBER))
+            if rich_filters and allow_neg and ch.bool(0.25):
+                body.append(Neg(Atom("e3", [])))
             rule = Rule(Atom(r.name, [X, Z]), body)
             rule.tags.add("rec")
             P.rules.append(rule)
@@ -1084,6 +1096,10 @@ def gen_recursive(ch, max_nodes=9, max_edges=18, npatterns=(1, 3), allow_neg=Tru
             body = [Atom(r.name, [X]), Atom(base.name, [X, Y])]
             if allow_neg and ch.bool(0.5):
                 body.append(Neg(Atom("e2", [Y])))
+            if rich_filters and ch.bool(0.4):
+                body.append(Cmp(ch.choice(["!=", "<=", ">"]), X, Y, NUMBER))
+            if rich_filters and allow_neg and ch.bool(0.25):
+                body.append(Neg(Atom("e3", [])))
             rule = Rule(Atom(r.name, [Y]), body)
             rule.tags.add("rec")
             P.rules.append(rule)
